@@ -8,7 +8,8 @@
     offset up to the block's length and every Read has a non-negative size;
     [no_cache_op]: the history does not call SetCache (C03 covers those). *)
 From Coq Require Import ZArith List Bool.
-From Hts Require Import Base.Prim Model.Flat Model.Reader Proofs.ReaderFlat Proofs.ReaderStore.
+From Hts Require Import Base.Prim Model.Flat Model.Reader Model.ReaderAsync Proofs.ReaderFlat Proofs.ReaderStore
+  Proofs.AsyncRefine.
 Import ListNotations.
 Open Scope Z_scope.
 
@@ -94,3 +95,43 @@ Proof.
   split; [reflexivity|]. split; [repeat constructor; vm_compute; try reflexivity; discriminate|].
   vm_compute. split; reflexivity.
 Qed.
+
+(** rd > 1, no cache: the reader with the read-ahead goroutine
+    (Model/ReaderAsync.v: channels waiting / working / control, rd
+    decompressors, the consumer's nextBlock loop and the redirect of Seek) under
+    EVERY schedule - the schedule says how many read-ahead iterations run before
+    each call and which branch a select with two ready channels takes; while a
+    call blocks on a channel the read-ahead thread runs, so the consumer is
+    always eventually scheduled.  For every well-formed file, rd >= 2, schedule
+    and valid history without SetCache: NewReader succeeds, every call returns
+    (no panic "unexpected block", no nil block, no deadlock) and the
+    observations are those of the flat stream, exactly as for rd = 1.
+    Proved through the invariant AInv (Proofs/AsyncRefine.v, [chinv] and
+    [chan_ok]): the bases of the entries in working followed by what the
+    read-ahead thread will still dispatch read "at most rd - 1 stale entries,
+    then the NextBase chain from the block the consumer expects"; control full
+    implies that the read-ahead thread polls it before its next dispatch; the rd
+    decompressors are conserved.
+    Partial: only as reader_refines_flat_partial is - the End clause is not
+    claimed for files with a 65536-byte member.  Granularity of the model: one
+    read-ahead iteration (take from waiting, poll / park on control, fetch, send
+    to working) is atomic. *)
+Theorem reader_async_refines_flat_partial :
+  forall (F : file) (rd : nat) (ch sched : list nat) (ops : list rop),
+    wf_file F = true -> F <> [] -> (2 <= rd)%nat -> Forall (valid_op F) ops -> forallb no_cache_op ops = true ->
+    snd (a_init F rd sched) = eNil /\
+    exists l, a_run F ch (fst (a_init F rd sched)) ops = Ok l /\
+      rets l = map fst (flat_run F f_init ops) /\
+      begins F l = map (fun y => fst (snd y)) (flat_run F f_init ops) /\
+      (addressable F = true -> ends F l = map (fun y => snd (snd y)) (flat_run F f_init ops)).
+Proof. exact async_refines_flat_proof. Qed.
+Print Assumptions reader_async_refines_flat_partial.
+
+(** rd > 1, no cache: under every schedule every call of every valid history
+    returns - outcome 0 of (0 returned, 1 panic, 2 deadlock, 3 error). *)
+Theorem reader_async_calls_return :
+  forall (F : file) (rd : nat) (sched : list nat) (ops : list rop),
+    wf_file F = true -> F <> [] -> (2 <= rd)%nat -> Forall (valid_op F) ops -> forallb no_cache_op ops = true ->
+    a_outcome F rd sched ops = 0.
+Proof. exact async_calls_return. Qed.
+Print Assumptions reader_async_calls_return.
